@@ -1591,7 +1591,7 @@ theorem searchBlank_cons_zero {a : UInt8} {t : Bytes} (h : blankLen (a :: t) = 0
 theorem searchBlank_none_drop {S : Bytes} (h : searchBlank S = none) (j : Nat) :
     blankLen (S.drop j) = 0 := by
   induction S generalizing j with
-  | nil => simp [blankLen, List.isPrefixOf]
+  | nil => simp [blankLen]
   | cons a t ih =>
     have h0 : blankLen (a :: t) = 0 := by
       apply Nat.eq_zero_of_not_pos; intro hp
@@ -1672,7 +1672,9 @@ theorem dataPhase_false_none {bnd : Bytes} (hb : BoundaryOk bnd) (chunks : List 
     refine ⟨p ++ p2, by simp only [dataPhase, hrun]; rw [hrun2, List.append_assoc], ?_⟩
     rw [← hcat]
     rcases hpre with ⟨t, ht⟩
-    exact ⟨t, by rw [← ht]; simp⟩
+    refine ⟨t, ?_⟩
+    have : p ++ p2 ++ t = p ++ (p2 ++ t) := by simp
+    rw [this, ht]; simp
 
 theorem dataPhase_true_none {bnd : Bytes} (hb : BoundaryOk bnd) (chunks : List Bytes) :
     ∀ (buf acc : Bytes), 0 < lbLen buf → searchDelim bnd false (buf ++ chunks.flatten) = none →
